@@ -217,7 +217,8 @@ func (ex *Exec) builtinAppend(fr *Frame, st *State, site ssa.Instruction, common
 	// result header
 	freshArr := ex.newObj(st)
 	newCap := ex.freshVar("appcap", SInt)
-	st.assume(And(Ge(newCap, newLen), Le(newCap, IntB(pow2[62]))))
+	// trusted: Go's append over-allocates by at most a factor of two plus size-class rounding
+	st.assume(And(Ge(newCap, newLen), Le(newCap, Add(Mul(Int(2), newLen), Int(64)))))
 	rArr := Ite(fits, s.Arr(), freshArr)
 	rOff := Ite(fits, s.Off(), Int(0))
 	rCap := Ite(fits, s.Cap(), newCap)
@@ -314,6 +315,7 @@ func (ex *Exec) bindResults(env *Env, c *Contract, callee *ssa.Function, res Val
 		off := 0
 		for i := 0; i < tup.Len(); i++ {
 			n := len(leavesOf(tup.At(i).Type()))
+			env.vars[fmt.Sprintf("ret%d", i)] = Value{T: tup.At(i).Type(), L: res.L[off : off+n]}
 			if i < len(names) && names[i] != "" && names[i] != "_" {
 				env.vars[names[i]] = Value{T: tup.At(i).Type(), L: res.L[off : off+n]}
 			}
@@ -770,7 +772,11 @@ func (ex *Exec) checkCallsite(fr *Frame, key string, callee *ssa.Function, args 
 		}
 	}
 	for _, cl := range cls {
-		g := env.boolTerm(cl.Expr)
+		g := tryBool(env, cl.Expr)
+		if g == nil {
+			continue // names a local that is not in scope at this call site
+		}
+		ex.clauseHit["callsite@"+key+"#"+cl.Label] = true
 		ex.oblige(st, "callsite@"+key, cl.Label, cl.Props, g, site.Pos(), fnKeyOf(fr.fn))
 		st.assume(g)
 	}
